@@ -29,11 +29,11 @@ theorem takeWhile_le_spec (s : List Nat) (x : Nat) :
 namespace Leg
 
 /-- `(qindex, index within the block)` of flat index `x` -/
-def locate (l : Leg) (x : Nat) : Nat × Nat :=
+def locateQ (l : Leg) (x : Nat) : Nat × Nat :=
   (bisectRight l.slices x - 1, x - l.slices.getD (bisectRight l.slices x - 1) 0)
 
-theorem getQindex_nat (l : Leg) (x : Nat) (hx : x < l.indLen) : l.getQindex (x : Int) = some (l.locate x) := by
-  unfold getQindex locate
+theorem getQindex_nat (l : Leg) (x : Nat) (hx : x < l.indLen) : l.getQindex (x : Int) = some (l.locateQ x) := by
+  unfold getQindex locateQ
   have h1 : ¬ ((x : Int) < 0) := by omega
   have h2 : ¬ ((x : Int) ≥ (l.indLen : Int)) := by omega
   simp only [h1, if_false, h2, Int.toNat_natCast]
@@ -47,9 +47,9 @@ theorem getQindex_neg (l : Leg) (x : Nat) (hx : x < l.indLen) :
   have h3 : (x : Int) - (l.indLen : Int) + (l.indLen : Int) = x := by omega
   simp only [h1, h2, if_true, if_false, h3]
 
-theorem locate_spec {l : Leg} (h : l.Shape) (x : Nat) (hx : x < l.indLen) :
-    (l.locate x).1 < l.blockNumber ∧ l.slices.getD (l.locate x).1 0 ≤ x ∧
-      x < l.slices.getD ((l.locate x).1 + 1) 0 ∧ l.slices.getD (l.locate x).1 0 + (l.locate x).2 = x := by
+theorem locateQ_spec {l : Leg} (h : l.Shape) (x : Nat) (hx : x < l.indLen) :
+    (l.locateQ x).1 < l.blockNumber ∧ l.slices.getD (l.locateQ x).1 0 ≤ x ∧
+      x < l.slices.getD ((l.locateQ x).1 + 1) 0 ∧ l.slices.getD (l.locateQ x).1 0 + (l.locateQ x).2 = x := by
   obtain ⟨t1, t2, t3⟩ := takeWhile_le_spec l.slices x
   have ht : bisectRight l.slices x = (l.slices.takeWhile (fun v => v ≤ x)).length := by
     unfold bisectRight; simp
@@ -69,7 +69,7 @@ theorem locate_spec {l : Leg} (h : l.Shape) (x : Nat) (hx : x < l.indLen) :
   have a1 := t1 (bisectRight l.slices x - 1) (by rw [← ht]; omega)
   have a2 := t2 (by rw [← ht, h.len]; unfold blockNumber at hle; omega)
   rw [← ht] at a2
-  unfold locate
+  unfold locateQ
   simp only
   rw [e]
   exact ⟨by omega, a1, a2, by omega⟩
@@ -175,7 +175,7 @@ theorem outerConj_fusion (legs : List Leg) (qconj : Int) (sort bunch : Bool) (j 
 /-! ### per-leg split of an index tuple -/
 
 /-- `(qindex, within)` of every entry of an index tuple -/
-def qwOf (legs : List Leg) (xs : List Nat) : List (Nat × Nat) := (legs.zip xs).map (fun lx => lx.1.locate lx.2)
+def qwOf (legs : List Leg) (xs : List Nat) : List (Nat × Nat) := (legs.zip xs).map (fun lx => lx.1.locateQ lx.2)
 /-- sizes of the blocks `qis` -/
 def sizesOf (legs : List Leg) (qis : List Nat) : List Nat :=
   (legs.zip qis).map (fun lq => lq.1.blockSizes.getD lq.2 0)
@@ -201,10 +201,10 @@ theorem qw_facts (legs : List Leg) (hs : ∀ l ∈ legs, l.Shape) (qconj : Int) 
     | cons x xs =>
       obtain ⟨hx0, hx'⟩ := hx
       have hl := hs l (by simp)
-      obtain ⟨a1, a2, a3, a4⟩ := l.locate_spec hl x hx0
+      obtain ⟨a1, a2, a3, a4⟩ := l.locateQ_spec hl x hx0
       obtain ⟨i1, i2, i3, i4⟩ := ih (fun m hm => hs m (by simp [hm])) xs hx'
       have hsucc := hl.slices_succ _ a1
-      refine ⟨⟨a1, i1⟩, ⟨(by show (l.locate x).2 < l.blockSizes.getD (l.locate x).1 0; omega), i2⟩, ?_, ?_⟩
+      refine ⟨⟨a1, i1⟩, ⟨(by show (l.locateQ x).2 < l.blockSizes.getD (l.locateQ x).1 0; omega), i2⟩, ?_, ?_⟩
       · simp only [qwOf, List.zip_cons_cons, List.map_cons] at i3 ⊢
         rw [i3, hl.toQflat_getD _ x a1 a2 a3]
       · intro lx hlx
@@ -231,8 +231,8 @@ theorem qwOf_inj (legs : List Leg) (hs : ∀ l ∈ legs, l.Shape) (xs ys : List 
       | cons y ys =>
         simp only [qwOf, List.zip_cons_cons, List.map_cons, List.cons.injEq] at e
         have hl := hs l (by simp)
-        have a := (l.locate_spec hl x hx.1).2.2.2
-        have b := (l.locate_spec hl y hy.1).2.2.2
+        have a := (l.locateQ_spec hl x hx.1).2.2.2
+        have b := (l.locateQ_spec hl y hy.1).2.2.2
         rw [e.1] at a
         have hxy : x = y := by omega
         rw [hxy, ih (fun m hm => hs m (by simp [hm])) xs ys hx.2 hy.2 e.2]
@@ -262,7 +262,7 @@ theorem mapIncomingFlat_eq (p : Pipe) (legs : List Leg) (hl : p.legs = legs) (qc
     simp only [List.length_map] at this ⊢
     rw [nlegs, hl, this]
   have hm : (p.legs.zip (xs.map Int.ofNat)).mapM (fun li => li.1.getQindex li.2) = some (qwOf legs xs) := by
-    rw [hl, mapM_some _ (fun li : Leg × Int => li.1.locate li.2.toNat)]
+    rw [hl, mapM_some _ (fun li : Leg × Int => li.1.locateQ li.2.toNat)]
     · rw [List.zip_map_right, List.map_map]; rfl
     · intro li hli
       rw [List.zip_map_right] at hli
